@@ -640,7 +640,6 @@ pub fn replay(doc: &Value) -> i32 {
     match r.violation {
         Some((class, msg)) => {
             println!("reproduced: class={} :: {}", class, msg);
-            println!("VIOLATION property=C20 replay=(replayed)");
             1
         }
         None => {
